@@ -88,6 +88,7 @@ func checkC03(p *ana.Prog, r *ana.Result) {
 	r.Undecided("the half-round-trip bound itself, behaviour under loss/duplication/reordering histories, the 3 s window's boundary (<= over IP, < over SCION), kernel timestamp quality")
 	c03Client(p, r, "(*IPClient).measureClockOffsetIP", false)
 	c03Client(p, r, "(*SCIONClient).measureClockOffsetSCION", true)
+	c03Wrapper(p, r)
 }
 
 func c03Client(p *ana.Prog, r *ana.Result, name string, scion bool) {
